@@ -183,7 +183,7 @@ func runCase(line []byte, out *json.Encoder) error {
 	}
 	obs := ioObs{ID: c.ID, Modes: map[string]modeObs{}}
 	if c.Sweep != nil {
-		hvlib.CaseTimeout = 30 * time.Minute
+		hvlib.CaseTimeout = 3 * time.Hour
 		r := runSweep(c.Sweep)
 		obs.Sweep = &r
 		return out.Encode(&obs)
